@@ -377,19 +377,48 @@ BENIGN = {
 MOUNTS = [None, None, '/static', '/s/', '/']
 
 
+def noisy(rng, segs):
+    """the same walk spelled differently: '.', empty segments, 'x/..' detours, percent-encoded characters"""
+    out = []
+    for sg in segs:
+        q = rng.random()
+        if q < 0.10:
+            out.append('.')
+        elif q < 0.18:
+            out.append('')
+        elif q < 0.28:
+            out += [rng.choice(['sub', 'zz', 'd', '%2e%2e']), '..']
+        if sg == '..':
+            sg = rng.choice(['..', '..', '%2e%2e', '.%2e', '%2E.', '%2e%2E'])
+        elif sg and rng.random() < 0.2:
+            k = rng.randrange(len(sg))
+            sg = sg[:k] + '%%%02X' % ord(sg[k]) + sg[k + 1:] if ord(sg[k]) < 128 else sg
+        else:
+            sg = _std_quote(sg, safe="\\~;.%") if (' ' in sg or '%' in sg) and rng.random() < 0.8 else sg
+        out.append(sg)
+    return out
+
+
 def gen_path(rng, lay, mount):
     L = layout(lay)
+    root = L['root']
     r = rng.random()
     n = rng.randint(0, 6)
-    if r < 0.25:      # benign walk
+    everything = sorted(L['files']) + L['dirs']
+    inside = [p for p in everything if p == root or p.startswith(root + '/')]
+    outside = [p for p in everything if p not in inside]
+    if r < 0.30:      # something that exists inside the root, spelled with noise
+        rel = os.path.relpath(rng.choice(inside), root)
+        segs = noisy(rng, [] if rel == '.' else rel.split('/'))
+    elif r < 0.50:    # something that exists outside the root, reached by climbing
+        rel = os.path.relpath(rng.choice(outside), root)
+        segs = noisy(rng, rel.split('/'))
+        if rng.random() < 0.3:
+            segs = [rng.choice(BENIGN[lay])] + ['..'] + segs
+    elif r < 0.58:    # benign walk
         segs = [rng.choice(BENIGN[lay]) for _ in range(n)]
-    elif r < 0.35:    # climb out and name something outside / come back in
-        up = rng.choice(['..', '%2e%2e', '..', '.%2e'])
-        k = rng.randint(1, 4)
-        segs = [rng.choice(BENIGN[lay]) for _ in range(rng.randint(0, 2))] + [up] * k + \
-               [rng.choice(BENIGN[lay]) for _ in range(rng.randint(0, 3))]
-    elif r < 0.45:    # decoded path is absolute (join: absolute second argument wins)
-        target = rng.choice(sorted(L['files']) + L['dirs'])
+    elif r < 0.68:    # decoded path is absolute (join: absolute second argument wins)
+        target = rng.choice(everything)
         enc = target.replace('/', rng.choice(['%2F', '%2f']))
         segs = [enc] if rng.random() < 0.7 else [rng.choice(HOSTILE), enc]
     else:
